@@ -51,20 +51,13 @@ Definition fpowm_loop (tb : ftable) (x p : Z) : Z :=
   | _ => 1
   end.
 
-(* tmcg_mpz_fpowm: None = std::invalid_argument (wrong base, exponent too large) or runtime_error (no inverse) *)
+(* tmcg_mpz_fpowm (the sign of x is read before res is written, so res may alias x -- fix de8b018):
+   None = std::invalid_argument (wrong base, exponent too large) or runtime_error (no inverse) *)
 Definition fpowm (tb : ftable) (m x p : Z) : option Z :=
   if negb (m =? ft_base tb) then None
   else if TMCG_MAX_FPOWM_T <? sizeinbase2 x then None
   else let r := fpowm_loop tb x p in
        if x <? 0 then invm r p else Some r.
-
-(* tmcg_mpz_fpowm called with res and x being the SAME variable (KeyGenerationProtocol_VerifyKey_interactive*:
-   tmcg_mpz_fpowm(fpowm_table_g, m_2, g, m_2, p)): `mpz_set_ui(res, 1)` overwrites x before the final
-   `mpz_sgn(x) == -1` test, so the inversion for a negative exponent never happens: the result is base^|x| *)
-Definition fpowm_alias (tb : ftable) (m x p : Z) : option Z :=
-  if negb (m =? ft_base tb) then None
-  else if TMCG_MAX_FPOWM_T <? sizeinbase2 x then None
-  else Some (fpowm_loop tb x p).
 
 (* tmcg_mpz_fspowm: same table walk; the result is always inverted once (throws when that fails); the dummy
    multiplications res*bar*bar^-1 and res*baz*baz^-1 leave the residue unchanged and reduce it mod p *)
